@@ -29,7 +29,7 @@ Theorem C18_english_key : forall D SY (dops : dict_ops D) (sops : syl_ops SY) co
   entering_next dops sops conv s ev =
     (if negb (o_fullwidth (opts s)) then commit_or_insert s (kunicode ev)
      else match full_width_symbol_input (kunicode ev) with
-          | None => Panic 603%N
+          | None => Ok (s, Spin BIgnore)
           | Some ch => commit_or_insert s ch
           end).
 Proof. intros D SY dops sops conv. exact (english_key_goes_to_default dops sops conv). Qed.
